@@ -253,10 +253,13 @@ def process(item):
     res = {'name': name, 'status': 'ok', 'diff': {}, 'viol_impl': [], 'viol_model': [], 'stats': {}, 'shapes': [], 'lines': len(src.splitlines())}
     t0 = time.time()
     try:
-        toks, ilines = impl.analyse_source(src, path=tuple(item.get('path', ("B0",))), limit=item.get('limit', 30))
+        toks, ilines = impl.analyse_source(src, path=tuple(item.get('path', ("B0",))), limit=item.get('limit', 12))
         if toks is None:
             res['status'] = 'impl-parse-error'; res['detail'] = ilines; return res
         res['ntoks'] = len(toks)
+        if 'err timeout' in ilines:
+            # the real tool did not finish within the per-case limit (path explosion): not a verdict of either side
+            res['status'] = 'impl-timeout'; return res
         res['shapes'] = sorted(S.shapes_of(toks))
         drv = driver()
         mlines = model_prog(drv, toks, '.'.join(p[1:] for p in item.get('path', ("B0",))))
@@ -280,6 +283,9 @@ def process(item):
             rr = [O.parse_res(l) for l in drv.run_many([O.env_line(j, item.get('fuel', 4000), s, i, t) for j, (s, i, t) in enumerate(envs)])]
             st = collections.Counter(r['tag'] for r in rr)
             res['stats'] = dict(st)
+            if iv.analysed and mv.fblocks:
+                # "reads another transaction by absolute index" is judged by the reference model, not by the tool under test
+                iv.abs_blocks = mv.abs_blocks
             if iv.analysed:
                 vi, s1 = eval_view(iv, envs, rr)
                 vi.update(walk_violations(iv, envs, rr))
